@@ -29,6 +29,11 @@ def run(tier, seed):
     for N in orders:
         moments_merge(pr, N)
     obs = pr.obs
+    import envelope
+    obs += envelope.guard_moments("C02", "Kurtosis", ["mean", "population_variance", "sample_variance", "skewness", "kurtosis"],
+                                  "<Kurtosis as Merge>::merge (two-chunk merges at several cuts, left fold of singletons)", with_merge=True)
+    obs += envelope.guard_moments("C02", "M6", ["mean", "sample_variance"] + [["central_moment", p] for p in range(2, 7)],
+                                  "<define_moments!(_, 6) as Merge>::merge", with_merge=True)
     obs += vl.run_lemmas("C02", ["merge_tree", "concat", "tree_equals", "lemma_fold"])
     meta = {
         "level": "proof",
@@ -43,8 +48,8 @@ def run(tier, seed):
         "assumptions": [A_REAL, A_INT, A_LIB,
                         "configurations: define_moments! orders %s (loops unrolled: bounds are the macro parameter, complete per order)" % orders,
                         "every chunking / bracketing / empty chunk: Verus lemma_merge_tree + lemma_summary_concat over the power-sum monoid; merge(&mut self, &Self) cannot modify its argument (rustc, also checked as frame_other)",
-                        "the forward-error envelope after merging is not decided (A-REAL)"],
+                        "the forward-error envelope after merging is not decided (A-REAL); a BOUNDED known-answer corpus (envelope_guard.merge) exercises it on ill-conditioned samples"],
         "explanation": "both operands symbolic representations of arbitrary summaries Pa, Pb; four emptiness cases; post-state equals the representation of Pa+Pb.",
     }
     from confirm_rs import confirm_moment
-    return obs, meta, lambda ob: confirm_moment(ob, {"Moments4": "Moments4", "Moments5": "M5", "Moments6": "M6", "Moments8": "M8", "Moments10": "M10"})
+    return obs, meta, lambda ob: envelope.confirm_from_cex(ob) or confirm_moment(ob, {"Moments4": "Moments4", "Moments5": "M5", "Moments6": "M6", "Moments8": "M8", "Moments10": "M10"})
